@@ -106,3 +106,17 @@ Definition spec (e : env) : bool :=
               then keep (Some (Build_flt (f_vote f) (f_failed f) [] (f_exclude f) (f_required f))) (e_tx e)
               else keep (Some f) (e_tx e)
   end.
+
+(* ---------- txMentionsAccount ---------- *)
+(* the account lists of an archived transaction: static keys of the message, and the addresses loaded from lookup
+   tables as the protobuf metadata records them (read-only and writable) *)
+Inductive msource := MStatic | MLoadedReadonly | MLoadedWritable.
+Record txlists := { m_static : list N; m_readonly : list N; m_writable : list N }.
+Definition source_of (x : txlists) (s : msource) : list N :=
+  match s with MStatic => m_static x | MLoadedReadonly => m_readonly x | MLoadedWritable => m_writable x end.
+(* `for key in L { if key == pkey { return true } }` for each source in turn, then `return false` *)
+Definition run_mentions (srcs : list msource) (x : txlists) (a : N) : bool :=
+  existsb (fun s => existsb (N.eqb a) (source_of x s)) srcs.
+(* the transaction of C19_Stream seen through its lists: its loaded addresses are both loaded lists *)
+Definition tx_of (x : txlists) (slot pos : N) (vote failed : bool) (id : N) : tx :=
+  Build_tx slot pos vote failed (m_static x) (m_readonly x ++ m_writable x) id.
